@@ -77,13 +77,14 @@ def behStr (d : DEnv) (s : St) : String :=
     | .cb k => s!"c{k % 4}"
     | .stub _ => "s"
     | .unknown => "?")
-  "b=" ++ String.intercalate "," bs ++ " n=o,o,o,o"
+  "b=" ++ String.intercalate "," bs ++ " n=o,o,o"
 
 def viaCode : String → Option Nat
-  | "f" => some 0 | "e" => some 1 | "m" => some 2 | "u" => some 3 | "v" => some 4 | "x" => some 5 | _ => none
+  | "f" => some 0 | "e" => some 1 | "m" => some 2 | "u" => some 3 | "v" => some 4 | "x" => some 5 | "p" => some 6 | _ => none
 
 /-- corpus layout (harness/c02/targets.go): 0–6 functions (5 generic at int), 7–9 methods of T, 10–11 function literals,
-    12–16 methods of L, 17 method M7 of the namesake type T of the second package, 18 the generic instantiated at int64 -/
+    12–16 methods of L, 17 method M7 of the namesake type T of the second package, 18 the generic instantiated at int64,
+    19 the unexported namesake u4 of the second package (reachable through `b.Pkg(path).ExportFunc("u4")`, via p, only) -/
 def isTMethod (t : Nat) : Bool := t ≥ 7 && t ≤ 9
 def isLMethod (t : Nat) : Bool := t ≥ 12 && t ≤ 16
 def isSMethod (t : Nat) : Bool := t == 17
@@ -102,11 +103,11 @@ def isStructVia (v : Nat) : Bool := v == 2 || v == 3 || v == 5
 
 def parseStep (d : DEnv) (toks : List String) : Option Op :=
   let chk (b t : Nat) (via : Nat) (o : Option Nat) : Bool :=
-    b < d.nB && t < d.nT && via < 6 &&
-    (via == 0 || (via == 1 && !isLiteral t && !isGeneric t && !isSMethod t) || (via == 2 && (isTMethod t || isSMethod t)) ||
+    b < d.nB && t < d.nT && via < 7 && ((via == 6) == (t == 19)) &&
+    (via == 6 || via == 0 || (via == 1 && !isLiteral t && !isGeneric t && !isSMethod t) || (via == 2 && (isTMethod t || isSMethod t)) ||
       ((via == 3 || via == 5) && isTMethod t) || (via == 4 && isMethod t)) &&
     (!isLiteral t || via == 0) &&                                                      -- a func literal is reachable through Func(variable) only
-    (match o with | some j => j < d.nP && ((j == 3) == isTMethod t) && !isLMethod t && !isSMethod t && t != 18 | none => true)
+    (match o with | some j => j < d.nP && ((j == 3) == isTMethod t) && !isLMethod t && !isSMethod t && t != 18 && t != 19 | none => true)
   -- `kept`: through the kept struct mocker (tokens sa/sr/sw/sc/sk) instead of a fresh Struct(x) lookup
   let mk (kind : String) (kept : Bool) (b v t k : Nat) (o : Option Nat) : Option Op :=
     let key := v * 1000 + t
